@@ -1660,4 +1660,28 @@ Proof.
     destruct (unmarshal_value_description s d); cbn [described];
     cbn [render flat_map render_segment app]; rewrite ?app_nil_r, <- ?app_assoc; reflexivity.
 Qed.
+
+(** the message descriptor as AppendID / AppendSender read it *)
+Definition msg_of_r (m : message) : Translated.Message :=
+  Translated.set_Message_SenderNode (msg_of m) (msg_sender m).
+
+Lemma T_AppendID_eq buf m : in_u 32 (msg_id m) ->
+  Translated.AppendID buf (msg_of_r m) = buf ++ rnd (append_id m).
+Proof.
+  intros Hid. unfold Translated.AppendID, append_id, go_append.
+  change (Translated.Message_ID (msg_of_r m)) with (msg_id m).
+  rewrite (wrap_u_small 64) by (eapply in_u_mono; [| exact Hid]; lia).
+  cbn [render flat_map render_segment app]. rewrite ?app_nil_r, <- ?app_assoc. reflexivity.
+Qed.
+
+Lemma T_appendAttributeString_eq buf name v :
+  Translated.appendAttributeString buf name v = buf ++ rnd (append_attr name (Lit v)).
+Proof.
+  unfold Translated.appendAttributeString, append_attr, go_append.
+  cbn [render flat_map render_segment app]. rewrite ?app_nil_r, <- ?app_assoc. reflexivity.
+Qed.
+
+Lemma T_AppendSender_eq buf m :
+  Translated.AppendSender buf (msg_of_r m) = buf ++ rnd (append_attr t_sender (Lit (msg_sender m))).
+Proof. unfold Translated.AppendSender. rewrite T_appendAttributeString_eq. reflexivity. Qed.
 End RenderText.
